@@ -219,6 +219,28 @@ def run(ctx):
                     raise core.MachineryError("harness RSA: a ciphertext with a leading zero byte does not decrypt")
                 break
         faults["front_cut"] = good[1:]
+        # ciphertext bytes are arbitrary: genuine ciphertexts that end / begin with CR LF, LF, blank, tab, NUL must decrypt like
+        # any other (nothing may be stripped from the blob). One of each kind is searched for (the 2-byte suffix only for the
+        # smaller key: about 65536 encryptions)
+        wanted = {"ends_crlf": lambda c: c.endswith(b"\r\n"), "ends_lf": lambda c: c.endswith(b"\n"), "ends_blank": lambda c: c.endswith(b" "), "ends_nul": lambda c: c.endswith(b"\x00"),
+                  "ends_tab": lambda c: c.endswith(b"\t"), "begins_blank": lambda c: c.startswith(b" "), "begins_lf": lambda c: c.startswith(b"\n"), "begins_cr": lambda c: c.startswith(b"\r")}
+        if kb != 128:
+            wanted.pop("ends_crlf")
+        hits = {}
+        for _try in range(400000):
+            cte = raw_rsa_encrypt(ser, key, rng)
+            for nm_, pred in list(wanted.items()):
+                if pred(cte):
+                    hits[nm_] = cte
+                    wanted.pop(nm_)
+            if not wanted:
+                break
+        for nm_, cte in hits.items():
+            o = core.outcome(c2.decrypt_metadata, cte, key)
+            ctx.evaluations += 1
+            if o[0] != "ok" or bytes(o[1].dumps()) != ser:
+                viol("decrypt_metadata", "genuine_ciphertext_" + nm_, {"k": kb, "got": str(o)[:200]})
+            ctx.count_distinct(("edge_ciphertext", nm_, kb))
         faults["zero_in_front"] = b"\x00" + good
         faults["byte_appended"] = good + b"\x00"
         for name, blob in faults.items():
@@ -227,6 +249,23 @@ def run(ctx):
             res = "ValueError" if o[0] == "ValueError" else ("ok" if o[0] == "ok" else o[1])
             ev.append({"op": "reject", "fault": name, "k": kb, "r": res})
             ctx.count_distinct(("fault", name, kb))
+    # team-server keys with other public exponents than 65537 (3, 17, 257) and another modulus size (1536 bit)
+    for e_, bits in ((3, 1024), (17, 1024), (257, 1024), (65537, 1536), (3, 2048)):
+        try:
+            ke = RSA.generate(bits, randfunc=random.Random(ctx.seed * 7 + e_ + bits).randbytes, e=e_)
+        except Exception as ex:  # noqa: BLE001
+            ctx.notes.setdefault("exponent_keys_skipped", []).append(f"{e_}/{bits}: {ex!r}")
+            continue
+        ser0 = bytes(tab[0]["ser"])
+        o = core.outcome(lambda: c2.encrypt_metadata(make_md(c2, tab[0]["md"]), ke.publickey()))
+        ctx.evaluations += 1
+        if o[0] != "ok" or len(o[1]) != bits // 8 or raw_rsa_decrypt(o[1], ke) != ser0:
+            viol("encrypt_metadata", "other_exponent_or_size", {"e": e_, "bits": bits, "got": str(o)[:100] if o[0] != "ok" else "not decryptable with the matching private key"})
+        else:
+            d = core.outcome(c2.decrypt_metadata, o[1], ke)
+            if d[0] != "ok" or bytes(d[1].dumps()) != ser0:
+                viol("decrypt_metadata", "other_exponent_or_size", {"e": e_, "bits": bits, "got": str(d)[:200]})
+        ctx.count_distinct(("exponent", e_, bits))
     # random field values at full width, info of every length (thorough) / sampled (quick)
     for _ in range(40 if q else 600):
         kb = rng.choice([128, 256])
